@@ -106,7 +106,7 @@ Proof.
     (* first alternative: needs i = 0 and an even lead-out length; with i + 1 = L that is L = 1, odd *)
     destruct (i =? 0) eqn:E0; [|rewrite andb_false_r; reflexivity].
     assert (i = 0) by lia. subst i. subst L. reflexivity. }
-  rewrite Htt. rewrite match_exact by exact Ht. cbn [bind]. reflexivity.
+  rewrite Htt. rewrite match_exact by exact Ht. replace (i + 1 =? L) with true by lia. cbn [andb bind]. reflexivity.
 Qed.
 
 (* ------------------------------------------------------------------ the data loop on a rendered, perturbed data section *)
